@@ -13,7 +13,10 @@ payoff written out, sequences of registrations with repeated names sent to op "h
 price = -cash(hedge portfolio - payoff) with the hedge portfolio built by the harness from the MODULE's own outputs (the module evaluated
 step by step on the features of each step, instrument h holding output h; no compute_hedge / compute_portfolio / functional.pl): hedgers
 with state-independent features only and with prev_hedge, H in {1, 2, 3}, every criterion (stepwise_portfolio; also in every op
-"hedger_price" scenario).
+"hedger_price" scenario); derivatives with two or more NON-COMMUTING clauses registered under names whose alphabetical order differs from the
+order of registration: payoff(), price and loss against the contractual payoff (payoff_fn() passed by hand through the clauses in registration
+order), shift by k through a last-registered "+k" clause whose name sorts first (clause_order_section; cap / floor / affine ones also in op
+"hedger_price").
 """
 import math
 from fractions import Fraction as F
@@ -43,6 +46,46 @@ _HP_REREGISTERED = [
     [["c0", ["cap", F(1, 32)]], ["c1", ["affine", F(1), F(1, 4)]], ["c1", ["affine", F(1), F(-1, 2)]], ["c0", ["cap", F(1, 64)]]],
     [["c0", ["affine", F(1), F(1, 2)]], ["c0", ["affine", F(1), F(1, 2)]], ["c0", ["affine", F(1), F(3, 4)]]],
 ]
+
+
+# two or more NON-COMMUTING clauses registered under names whose alphabetical order differs from the order of registration (the way contractual
+# terms are named: "knockout" first, then "bonus"; "c9" before "c10").  Clauses modify the payoff one after another in the order in which they
+# were added, whatever they are called.  Fixed corpus (every run), with (deriv, strike) such that the order matters on every path:
+_HP_ORDERED = [
+    ("european", 0.9, [["knockout-cap", ["cap", F(1, 64)]], ["bonus", ["affine", F(1), F(1, 4)]]]),          # min(p, 1/64) + 1/4, not min(p + 1/4, 1/64)
+    ("european", 1.1, [["scale", ["affine", F(2), F(1, 8)]], ["floor", ["floor", F(9, 64)]]]),               # max(2p + 1/8, 9/64), not 2 max(p, 9/64) + 1/8
+    ("european", 1.0, [["z", ["cap", F(1, 32)]], ["m", ["affine", F(1), F(-1, 2)]], ["a", ["affine", F(1, 2), F(0)]]]),
+    ("european_put", 1.1, [["c9", ["cap", F(1, 64)]], ["c10", ["affine", F(1), F(1)]]]),
+    ("lookback", 0.9, [["rebate-floor", ["floor", F(9, 64)]], ["fee", ["affine", F(1), F(-1, 4)]], ["Cap", ["cap", F(1, 128)]]]),
+    ("european", 0.9, [["knockout-cap", ["cap", F(1, 64)]], ["bonus", ["affine", F(1), F(1, 4)]], ["a-last", ["affine", F(1), F(-1, 2)]]]),
+]
+_HP_ORDER_NAMES = ["knockout", "bonus", "cap", "fee", "rebate", "zero-floor", "a", "B", "c9", "c10", "c11", "Z", "scale", "_x", "2nd"]
+
+
+def gen_ordered(g, it, c):
+    """clause registrations under distinct names that are NOT in alphabetical order; non-commuting neighbours (cap / floor next to affine)"""
+    if it < len(_HP_ORDERED):
+        c["deriv"], c["strike"], adds = _HP_ORDERED[it]
+        c["n_paths"] = max(c["n_paths"], 5)
+        return [[n, list(cl)] for n, cl in adds]
+    n = g.choice([2, 2, 3, 4])
+    names = []
+    while len(names) < n:
+        nm = g.choice(_HP_ORDER_NAMES)
+        if nm not in names:
+            names.append(nm)
+    if names == sorted(names):
+        names.reverse()
+    clamp = [cl for cl in _HP_REG_POOL if cl[0] != "affine"]
+    aff = [cl for cl in _HP_REG_POOL if cl[0] == "affine" and cl != ["affine", F(1, 2), F(0)]]
+    first = g.chance(0.5)
+    return [[nm, g.choice(clamp if (i % 2 == 0) == first else aff)] for i, nm in enumerate(names)]
+
+
+def _apply_hp_clauses(z, clauses):
+    for cl in clauses:
+        z = z.clamp(max=float(cl[1])) if cl[0] == "cap" else z.clamp(min=float(cl[1])) if cl[0] == "floor" else float(cl[1]) * z + float(cl[2])
+    return z
 
 
 def gen_reregistered(g, it):
@@ -181,7 +224,7 @@ def _small_hp(c):
     d["hedges"] = [{k: (rat_str(v) if isinstance(v, F) else v) for k, v in h.items()} for h in c["hedges"]]
     d["w"], d["b"] = enc_rat(c["w"]), enc_rat(c["b"])
     d["clauses"] = [[cl[0]] + enc_rat(cl[1:]) for cl in c["clauses"]]
-    if c.get("reregistered"):
+    if c.get("reregistered") or c.get("ordered"):
         d["add_clause_calls"] = [[name, [cl[0]] + enc_rat(cl[1:])] for name, cl in c["adds"]]
     if c.get("subclass"):
         d["hedger_subclass"] = "compute_portfolio = Hedger.compute_portfolio - (" + rat_str(c["subclass"]["fee"]) + ")"
@@ -200,9 +243,21 @@ def hedger_price_section(ctx, torch, nn):
     n_gen = 48 if ctx.tier == "quick" else 480
     n_rereg = 12 if ctx.tier == "quick" else 80
     n_sub = 12 if ctx.tier == "quick" else 80
-    for it in range(n_gen + n_rereg + n_sub):
+    n_ord = 12 if ctx.tier == "quick" else 80
+    for it in range(n_gen + n_rereg + n_sub + n_ord):
         c = gen_hedger_price(g, ctx.tier)
-        if it >= n_gen + n_rereg:
+        if it >= n_gen + n_rereg + n_sub:
+            # non-commuting clauses registered under names in non-alphabetical order
+            c["adds"] = gen_ordered(g, it - n_gen - n_rereg - n_sub, c)
+            c["ordered"] = True
+            c["clauses"] = [cl for _, cl in c["adds"]]
+            if it - n_gen - n_rereg - n_sub < len(_HP_ORDERED):      # every criterion on every run
+                c["which"] = ["es", "erm", "eloss"][(it - n_gen - n_rereg - n_sub) % 3]
+                c["param"] = 0.5 if c["which"] == "es" else 1.0
+                c["log"] = c["log"] and c["which"] != "es"
+            if c["model"] == "badwidth":
+                c["model"], c["w"], c["b"] = "linear", c["w"][:-1], c["b"][:-1]
+        elif it >= n_gen + n_rereg:
             # a user SUBCLASS of Hedger that overrides compute_portfolio (the library's portfolio minus a flat fee): price and loss are
             # defined through the subclass's hedge portfolio; the model sees the fee as a last "+ fee" clause of the payoff
             c["subclass"] = {"fee": g.choice([F(1, 4), F(-1, 8), F(1, 2), F(3, 64), F(-1)])}
@@ -244,7 +299,7 @@ def hedger_price_section(ctx, torch, nn):
         st_l, loss, _ = call_impl(hedger.compute_loss, deriv, hedge=hedge, n_paths=N, n_times=nt, enable_grad=False)
         # the same simulations once more, to read the market of every batch
         torch.manual_seed(c["seed"])
-        und_batches, by_hand, by_hand_lib, by_hand_sw, payoff_bad = [], [], [], [], None
+        und_batches, by_hand, by_hand_lib, by_hand_sw, payoff_bad, order_matters = [], [], [], [], None, False
         for _ in range(nt):
             deriv.simulate(n_paths=N)
             und_batches.append(tensor_to_fracs(stock.spot))
@@ -261,7 +316,12 @@ def hedger_price_section(ctx, torch, nn):
                         if c.get("subclass"):
                             pf_sw = pf_sw - float(c["subclass"]["fee"])
                         by_hand_sw.append(float(-hedger.criterion.cash(pf_sw - deriv.payoff())))
-            if c.get("reregistered") and st_p == "ok":
+            if c.get("ordered"):
+                with torch.no_grad():
+                    by_name = [cl for _, cl in sorted(c["adds"], key=lambda nc: nc[0])]
+                    if not torch.equal(_apply_hp_clauses(deriv.payoff_fn(), c["clauses"]), _apply_hp_clauses(deriv.payoff_fn(), by_name)):
+                        order_matters = True
+            if (c.get("reregistered") or c.get("ordered")) and st_p == "ok":
                 # the contractual payoff written out: payoff_fn() through the clauses IN FORCE (the last registration of every name, at
                 # the position of the name's first registration)
                 with torch.no_grad():
@@ -309,11 +369,26 @@ def hedger_price_section(ctx, torch, nn):
                     ctx.fail("after a clause was registered again under an existing name, Hedger.price differs from minus the cash amount of "
                              "(portfolio - payoff under the clauses in force) on the simulated paths", small,
                              key=f"price:{c['which']}:reregistered-clause:value", detail={"price": float(price), "expected": exp})
+        if c.get("ordered") and st_p == "ok":
+            if payoff_bad is not None:
+                ctx.fail("clauses registered under names that are not in alphabetical order: payoff() is not payoff_fn() passed through the "
+                         "clauses in the order in which they were added (the price is quoted for a payoff that is not the contractual one)", small,
+                         key="price:clause-order:scenario:payoff", detail=payoff_bad)
+            if len(by_hand) == nt:
+                exp = sum(by_hand) / nt
+                if not abs(float(price) - exp) <= 1e-9 * max(1.0, abs(exp)):
+                    ctx.fail("clauses registered under names that are not in alphabetical order: Hedger.price differs from minus the cash amount "
+                             "of (portfolio - contractual payoff) on the simulated paths, the contractual payoff being payoff_fn() passed by hand "
+                             "through the clauses in the order of registration", small,
+                             key=f"price:{c['which']}:clause-order:scenario:value", detail={"price": float(price), "expected": exp})
         for i, s in others.items():
             if tensor_to_fracs(s.spot) != other_rows[i]:
                 raise InternalError("a hedging instrument that the derivative does not simulate changed its paths")
-        ctx.case(small, c["model"] != "badwidth", tag="hedger_price:reregistered_clause" if c.get("reregistered") else
-                 "hedger_price:subclass" if c.get("subclass") else "hedger_price")
+        if c.get("ordered"):
+            ctx.stats[f"hedger_price:ordered:{'order-matters' if order_matters else 'order-immaterial-on-these-paths'}"] += 1
+        ctx.case(small, c["model"] != "badwidth" and (order_matters or not c.get("ordered")),
+                 tag="hedger_price:reregistered_clause" if c.get("reregistered") else
+                 "hedger_price:subclass" if c.get("subclass") else "hedger_price:clause_order" if c.get("ordered") else "hedger_price")
         ctx.traces += 1
         for kk in ("which", "model", "deriv"):
             ctx.stats[f"hedger_price:{kk}={c[kk]}"] += 1
@@ -660,6 +735,144 @@ def hedger_stepwise_section(ctx, torch, nn):
                      key=f"price:{which}:stepwise:prev-hedge" if prev else f"price:{which}:stepwise", detail={"price": float(price), "expected": exp})
 
 
+# ---- non-commuting clauses registered under names in non-alphabetical order ------------------------------------------------------------
+
+_ORDER_FAMILIES = ["knockout+bonus", "scale+cap", "rebate-floor+fee", "participation+knockin+coupon", "c9+c10"]
+
+
+def clause_order_section(ctx, torch, nn):
+    """Derivatives with two or more NON-COMMUTING clauses whose names are not in alphabetical order (knock-out then bonus, scale then cap,
+    floor then fee, "c9" then "c10" ...), on paths where the clauses bite (barriers at the median of the running extremum of the first
+    simulated batch).  Clauses modify the payoff one after another in the order in which they were added, so the contractual payoff is
+    payoff_fn() passed BY HAND through the harness's own list of the clauses, in the order of registration.  Predicates on the real code:
+    payoff() is that payoff; Hedger.price = -cash(portfolio - contractual payoff) and Hedger.compute_loss = criterion(portfolio - contractual
+    payoff) on the simulated paths; ERM price = loss; and a constant k added as the LAST registered clause, under a name that sorts before
+    every other name, raises the price by exactly k.  Hedger and a user subclass of Hedger; every (family, criterion) pair on every tier."""
+    from pfhedge.instruments import BrownianStock, EuropeanOption, LookbackOption
+    from pfhedge.nn import Hedger
+    g = ctx.gen
+    dt = torch.float64
+    crits = ("erm", "es", "eloss", "qcvar", "iso")
+    todo = [(fam, which) for fam in _ORDER_FAMILIES for which in crits]
+    for _ in range(5 if ctx.tier == "quick" else 200):
+        todo.append((g.choice(_ORDER_FAMILIES), g.choice(crits)))
+    for fam, which in todo:
+        crit = {"erm": nn.EntropicRiskMeasure(g.choice([0.5, 1.0, 2.0])), "es": nn.ExpectedShortfall(g.choice([0.1, 0.5, 1.0])),
+                "eloss": nn.EntropicLoss(g.choice([1.0, 1.5])), "qcvar": nn.QuadraticCVaR(g.choice([1.0, 10.0])), "iso": nn.IsoelasticLoss(0.5)}[which]
+        cost_rate = g.choice([0.0, 2.0 ** -9, 2.0 ** -6])
+        stock = BrownianStock(cost=cost_rate, sigma=g.choice([0.2, 0.3]), dtype=dt)
+        n_steps = g.choice([3, 5, 20])
+        strike = {"knockout+bonus": 1.0, "scale+cap": 0.9, "rebate-floor+fee": 1.1, "participation+knockin+coupon": 0.9, "c9+c10": 0.9}[fam]
+        deriv = g.choice([EuropeanOption, LookbackOption])(stock, strike=strike, maturity=n_steps / 250)
+        n_paths, n_times = g.choice([5, 20, 50]), g.choice([1, 1, 2, 3])
+        seed = g.randint(0, 10 ** 6)
+        # the barrier levels are contractual terms fixed before pricing: the median of the running maximum / minimum of the first batch
+        torch.manual_seed(seed)
+        deriv.simulate(n_paths=n_paths)
+        hi, lo = sorted(stock.spot.max(-1).values.tolist()), sorted(stock.spot.min(-1).values.tolist())
+        up = (hi[(n_paths - 1) // 2] + hi[(n_paths - 1) // 2 + 1]) / 2
+        down = (lo[(n_paths - 1) // 2] + lo[(n_paths - 1) // 2 + 1]) / 2
+        kb = g.choice([0.25, -0.125, 0.5])
+        if fam == "knockout+bonus":
+            regs = [("knockout", f"0 where max spot > {up!r}", lambda d, p: torch.where(d.ul().spot.max(-1).values > up, torch.zeros_like(p), p)),
+                    ("bonus", f"+ {kb}", lambda d, p: p + kb)]
+        elif fam == "scale+cap":
+            regs = [("scale", "* 2", lambda d, p: 2.0 * p), ("cap", "min(., 1/32)", lambda d, p: p.clamp(max=1 / 32))]
+        elif fam == "rebate-floor+fee":
+            regs = [("rebate-floor", "max(., 1/64)", lambda d, p: p.clamp(min=1 / 64)), ("fee", f"- {abs(kb)}", lambda d, p: p - abs(kb))]
+        elif fam == "participation+knockin+coupon":
+            regs = [("participation", "* 0.5", lambda d, p: 0.5 * p),
+                    ("knockin", f"0 unless min spot < {down!r}", lambda d, p: torch.where(d.ul().spot.min(-1).values < down, p, torch.zeros_like(p))),
+                    ("coupon", f"+ {kb}", lambda d, p: p + kb)]
+        else:       # names numbered by the user: "c9" is registered before "c10" and sorts after it
+            regs = [("c9", f"0 where max spot > {up!r}", lambda d, p: torch.where(d.ul().spot.max(-1).values > up, torch.zeros_like(p), p)),
+                    ("c10", "* 0.5 + 0.125", lambda d, p: 0.5 * p + 0.125), ("c11", "max(., 0.13)", lambda d, p: p.clamp(min=0.13))]
+        if which == "iso":
+            regs.append(("Positive", "- 8", lambda d, p: p - 8.0))      # keep portfolio - payoff positive for the isoelastic utility
+        for name, _, fn in regs:
+            deriv.add_clause(name, fn)
+        sub_kind = g.choice([None, None, "rebate", "both"])
+        cls, par = Hedger, None
+        if sub_kind:
+            par = g.choice([0.25, -0.125])
+            cls, _ = make_hedger_subclass(torch, Hedger, sub_kind, par)
+        model_kind = g.choice(["linear", "bs"])
+        if model_kind == "bs":
+            bs = nn.BlackScholes(EuropeanOption(stock, strike=strike, maturity=n_steps / 250)).to(dt)
+            hedger = cls(bs, bs.inputs(), criterion=crit)
+        else:
+            lin = torch.nn.Linear(2, 1, dtype=dt)
+            with torch.no_grad():
+                lin.weight.copy_(torch.tensor([[g.choice([0.5, -0.5, 1.0]), 0.25]], dtype=dt))
+                lin.bias.copy_(torch.tensor([0.1], dtype=dt))
+            hedger = cls(lin, ["moneyness", "time_to_maturity"], criterion=crit)
+        hedge = g.choice([None, [stock]])
+        k_shift = g.choice([0.25, 1.0, -0.5])
+        k_name = g.choice(["adjustment", "0-add-on", "Bonus", "a"])        # sorts before every name registered so far
+        case = {"clauses_in_order_of_registration": [[n_, txt] for n_, txt, _ in regs], "criterion": which, "criterion_parameter": repr(crit),
+                "n_paths": n_paths, "n_times": n_times, "seed": seed, "derivative": type(deriv).__name__, "strike": strike, "steps": n_steps,
+                "sigma": stock.sigma, "cost": cost_rate, "model": model_kind, "hedger": sub_kind or "Hedger", "subclass_parameter": par,
+                "hedge_argument": "None" if hedge is None else "[underlier]", "k": k_shift, "k_clause_name": k_name}
+        fns = [fn for _, _, fn in regs]
+        by_name = [fn for _, _, fn in sorted(regs, key=lambda r: r[0])]
+
+        def through(z, fs):
+            for fn in fs:
+                z = fn(deriv, z)
+            return z
+        torch.manual_seed(seed)
+        st, price, _ = call_impl(hedger.price, deriv, hedge=hedge, n_paths=n_paths, n_times=n_times)
+        torch.manual_seed(seed)
+        stl, loss, _ = call_impl(hedger.compute_loss, deriv, hedge=hedge, n_paths=n_paths, n_times=n_times, enable_grad=False)
+        # the same paths: the contractual payoff by hand
+        torch.manual_seed(seed)
+        vals, losses, payoff_bad, matters = [], [], None, False
+        with torch.no_grad():
+            for _ in range(n_times):
+                deriv.simulate(n_paths=n_paths)
+                z = through(deriv.payoff_fn(), fns)
+                matters = matters or not torch.equal(z, through(deriv.payoff_fn(), by_name))
+                pf = hedger.compute_portfolio(deriv, hedge)
+                vals.append(float(-crit.cash(pf - z)))
+                losses.append(float(crit(pf - z)))
+                if payoff_bad is None and not torch.equal(deriv.payoff(), z):
+                    payoff_bad = {"payoff()": deriv.payoff().tolist()[:8], "payoff_fn() through the clauses in the order of registration": z.tolist()[:8]}
+        ctx.case(case, matters, tag=f"price:clause_order:{fam}")
+        ctx.stats[f"price:clause-order:{which}"] += 1
+        ctx.stats[f"price:clause-order:{'order-matters' if matters else 'order-immaterial-on-these-paths'}"] += 1
+        ctx.traces += 1
+        if payoff_bad is not None:
+            ctx.fail("clauses registered under names that are not in alphabetical order: payoff() is not payoff_fn() passed through the clauses in "
+                     "the order in which they were added (the price is quoted for a payoff that is not the contractual one)", case,
+                     key="price:clause-order:payoff", detail=payoff_bad)
+        if st != "ok" or stl != "ok":
+            ctx.fail("Hedger.price / Hedger.compute_loss raised for a derivative with several clauses", case, key=f"price:{which}:clause-order:error",
+                     detail=[price if st != "ok" else "ok", loss if stl != "ok" else "ok"])
+            continue
+        exp, exp_l = sum(vals) / n_times, sum(losses) / n_times
+        tolp = 1e-9 if which in ("erm", "es", "eloss") else 2e-5      # as in the sections above (root searches with precision 1e-6)
+        if not abs(float(price) - exp) <= tolp * max(1.0, abs(exp)):
+            ctx.fail("non-commuting clauses registered under names that are not in alphabetical order: Hedger.price differs from minus the cash "
+                     "amount of (portfolio - contractual payoff) on the simulated paths, the contractual payoff being payoff_fn() passed by hand "
+                     "through the clauses in the order of registration", case, key=f"price:{which}:clause-order:value",
+                     detail={"price": float(price), "expected": exp})
+        if not abs(float(loss) - exp_l) <= 1e-9 * max(1.0, abs(exp_l)):
+            ctx.fail("non-commuting clauses registered under names that are not in alphabetical order: Hedger.compute_loss differs from the "
+                     "criterion of (portfolio - contractual payoff) on the simulated paths", case, key=f"loss:{which}:clause-order:value",
+                     detail={"loss": float(loss), "expected": exp_l})
+        if which == "erm" and not abs(float(price) - float(loss)) <= 1e-9 * max(1.0, abs(exp)):
+            ctx.fail("for the entropic risk measure the price differs from the loss (derivative with several clauses)", case,
+                     key="price:erm:clause-order:loss", detail={"price": float(price), "loss": float(loss)})
+        # the constant k as the LAST registered clause, under a name that sorts first: the contract pays (everything above) + k
+        deriv.add_clause(k_name, lambda d, p, k=k_shift: p + k)
+        torch.manual_seed(seed)
+        st2, price2, _ = call_impl(hedger.price, deriv, hedge=hedge, n_paths=n_paths, n_times=n_times)
+        if st2 != "ok" or not abs(float(price2) - (float(price) + k_shift)) <= tolp * max(1.0, abs(exp)):
+            ctx.fail("adding a constant k to the payoff, as the last registered clause of a derivative with knock-out / cap / floor clauses (its "
+                     "name sorts before theirs), does not raise the price by exactly k", case, key=f"price:{which}:clause-order:shift",
+                     detail={"price": float(price), "k": k_shift, "price_shifted": float(price2) if st2 == "ok" else price2})
+
+
 def check(ctx):
     torch, pfhedge = import_impl()
     import pfhedge.nn as nn
@@ -926,6 +1139,7 @@ def check(ctx):
     hedger_price_section(ctx, torch, nn)
     hedger_subclass_section(ctx, torch, nn)
     hedger_stepwise_section(ctx, torch, nn)
+    clause_order_section(ctx, torch, nn)
     return ctx.finish(
         rule="criteria {EntropicRiskMeasure, EntropicLoss, IsoelasticLoss, ExpectedShortfall, QuadraticCVaR, user subclass and EntropicLoss forced "
              "through the default search} on (N,) and (N,M) samples incl. constants and ties, targets; Hedger.price with frozen seeds, n_times in "
@@ -940,4 +1154,8 @@ def check(ctx):
              "price = -cash(portfolio built step by step from the module's own outputs - payoff): {state-independent features, prev_hedge} x H in "
              "{1,2,3} (underlier, other stocks, options listed with linear / Black-Scholes pricers, dyadic cost rates) x {Linear, user module} x "
              "every criterion on every tier, and in every composed-model scenario; "
+             "non-commuting clauses registered under names in non-alphabetical order (knock-out then bonus, scale then cap, floor then fee, "
+             "participation / knock-in / coupon, c9 before c10; barriers at the median running extremum of the first batch) x every criterion: "
+             "payoff() and price / loss against the contractual payoff applied by hand in registration order, shift by k through a last-registered "
+             "clause whose name sorts first; the same class (cap / floor / affine) in the composed-model scenarios; "
              "every case non-trivial except modules of the wrong width (error agreement); distinct = sha1 of canonical case")
